@@ -129,7 +129,7 @@ class StmtMixin:
         if isinstance(t.value, ast.Name) and t.value.id == 'self' and self.self_cls:
             self.state.env['self.' + t.attr] = v
             self.event('write', 'P:self', 'cont', node, f'{src(node)} sets attribute {t.attr} of')
-            ext = {x for x in self.deep_orgs(v) if x.startswith(('P:', 'E:')) and root_param(x) != 'self'}
+            ext = {x for x in self.deep_orgs(v) if x.startswith(('P:', 'E:', 'N:')) and root_param(x) != 'self'}
             for x in sorted(ext):
                 self.event('retain', x, 'attr', node,
                            f'{src(node)} stores a reference to {describe_origin(x)} in self.{t.attr}', via=self.deep_vias(v))
